@@ -9,6 +9,7 @@ CONSTANTS
   FineTime = FALSE
   SlowWrites = TRUE
   SlowRtx = "no"
+  IgnoreToo = FALSE
   FailAts = {0, 1, 2, 7}
   MaxDepth = 99
 INVARIANTS C12_Schedule C12_NothingLeft
